@@ -122,6 +122,15 @@ func Harness_C12_CleanSessionDetails() {
 	details := wamp.Dict{"session": wamp.ID(7), "authid": "alice", "extra": 1, "private": 2}
 	hasTransport := vBool("hasTransport")
 	hasAuth := vBool("hasAuth")
+	// what an embedding application handed to AttachClient as transport.auth
+	// need not be a dictionary
+	var authVal any
+	switch vChoice("transport.auth.kind", 3) {
+	case 1:
+		authVal = "secret-token"
+	case 2:
+		authVal = []string{"secret"}
+	}
 	transportAsMap := vBool("transport.asPlainMap")
 	otherItems := vBool("transport.hasOtherItems") // auth may be the only item of transport
 	if hasTransport {
@@ -132,6 +141,9 @@ func Harness_C12_CleanSessionDetails() {
 			}
 			if hasAuth {
 				t["auth"] = map[string]any{"cookie": "secret"}
+				if authVal != nil {
+					t["auth"] = authVal
+				}
 			}
 			details["transport"] = t
 		} else {
@@ -141,6 +153,9 @@ func Harness_C12_CleanSessionDetails() {
 			}
 			if hasAuth {
 				t["auth"] = wamp.Dict{"cookie": "secret"}
+				if authVal != nil {
+					t["auth"] = authVal
+				}
 			}
 			details["transport"] = t
 		}
